@@ -204,6 +204,50 @@ func zzC11Run(spec string) {
 }
 
 func zzC11_Run_T2()   { zzC11Run("2;Tasks=2;After=1") }
+
+// Fan-in document: three entries of which only the last names predecessors, up to three of them
+// (so A,B,A and A,A,B are included). The reply's edge list must be the edge set a read shows:
+// every reported edge present, none reported twice (seed C11k).
+func zzC11_Run_Fan3() {
+	g := zzC14Store("1;Results=0;RDeps=0;Tombstones=0;constkeys=Tasks,Meta,Deps")
+	root := zzWorldInit(g)
+	zzPinRand()
+	opts := zzCmdOpts(root)
+	p := zzPlanDoc("3;Tasks=3;After=3")
+	zzAssume(len(p.Tasks) == 3 && len(p.Tasks[0].After) == 0 && len(p.Tasks[1].After) == 0)
+	zzStdinPiped(true)
+	zzStdinPlan(p, false)
+	err := RunPlan(nil, opts)
+	zzAfter("plan", err, opts.JSON)
+	if err != nil || !opts.JSON {
+		return
+	}
+	g2, perr := zzPost()
+	if perr != nil {
+		return
+	}
+	edges := zzOutEdges()
+	zzReach("fan-applied")
+	nRead := 0
+	for _, ds := range g2.Deps {
+		nRead += len(ds)
+	}
+	for i, e := range edges {
+		zzAssert(zzEdge(g2, e.FromID, e.ToID), "C11/reply: every reported edge is what a following read shows")
+		for j := 0; j < i; j++ {
+			zzAssert(edges[j].FromID != e.FromID || edges[j].ToID != e.ToID, "C11/reply: no edge is reported twice")
+		}
+	}
+	zzAssert(len(edges) == nRead-zzDepCount(g), "C11/reply: as many edges reported as a following read shows added")
+}
+
+func zzDepCount(g *Graph) int {
+	n := 0
+	for _, ds := range g.Deps {
+		n += len(ds)
+	}
+	return n
+}
 func zzC11_Run_T2A2() { zzC11Run("2;Tasks=2;After=2") }
 
 // C10 for plan: whatever makes RunPlan return an error (parse error, invalid document, busy lock, a
